@@ -110,9 +110,7 @@ def _is_close_store(ctx, sn, own=True):
 
 def r17_2(ctx, rc):
     R = ctx.R
-    lock = (R.builder, '_lock')
-    if lock not in ctx.H.lock_attrs():
-        raise AnalysisError('builder lock vanished')
+    lock = R.builder_lock
     # (a) every close of the builder's own record is under its lock
     n = 0
     for f in ctx.prog.funcs.values():
@@ -139,8 +137,8 @@ def r17_2(ctx, rc):
                             ctx.prog.loc(f, cn.ast), key=key)
                     else:
                         rc.ok({'close': key}, key=key + str(cn.lineno))
-    if n < 3:
-        raise AnalysisError('only %d closes of the own record found' % n)
+    if n < 1:
+        raise AnalysisError('no close of the own record found')
     # (b) after the user callback, close happens on every path and before
     # the record is registered
     for fname, reg in (('_rebuild_file', 'finish_building_file'),
@@ -191,7 +189,7 @@ def r17_3(ctx, rc):
     R = ctx.R
     A = R.builder_f(APPENDER)
     fence = R.builder + '.' + FENCE
-    lock = (R.builder, '_lock')
+    lock = R.builder_lock
     sg = ctx.E.super(A, lambda g: g.qualname == fence)
     apps = [x for x in sg.nodes if _is_append(x)]
     if not apps:
